@@ -778,10 +778,8 @@ def explore(scenario_fn, *, timeout_ms=5000, max_paths=20000, excluded_fn=None, 
         ctx = Ctx("sym", prefix=prefix, timeout_ms=timeout_ms, stats=st)
         Ctx.cur = ctx
         outcome = None
-        prof = None
-        if profile_first and first:
-            prof = _Profiler()
-            prof.start()
+        ctx.want_profile = bool(profile_first and first)
+        ctx.profiler = None
         try:
             outcome = scenario_fn(ctx)
             if outcome is None:
@@ -798,11 +796,10 @@ def explore(scenario_fn, *, timeout_ms=5000, max_paths=20000, excluded_fn=None, 
             st.inconclusive += 1
             st.unknowns.append(f"solver unknown: {e}")
         finally:
-            if prof:
-                prof.stop()
-                st.functions |= prof.names
             Ctx.cur = None
             ctx.close()
+            if ctx.profiler is not None:
+                st.functions |= ctx.profiler.names
         first = False
         st.paths += 1
         if outcome is not None:
